@@ -166,6 +166,10 @@ def btStep (l : List Key) : List String → List Key × String
 def sigOf (ws : List String) : String := s!"sig=C07.{ws.headD "op"}-differs-from-linear-scan"
 
 def step (d : DState) (opLine : String) (impl : String) : DState × StepOut :=
+  if impl = "skipped-after-panic" then
+    -- the harness executes nothing between a panic and the next reset (the panic itself was judged)
+    (d, { model := impl })
+  else
   match words opLine with
   | ["reset"] => ({}, { model := "ok" })
   | "bt" :: rest =>
@@ -208,7 +212,10 @@ def step (d : DState) (opLine : String) (impl : String) : DState × StepOut :=
     match answer d ws impl with
     | none => (d, { model := "bad-op" })
     | some (m, sp) =>
-      let fails := if d.dirty || sp = impl then [] else [s!"{sigOf ws} expected={sp} got={impl}"]
+      let panicked := ws.head? = some "rand" && (impl.splitOn ",").any (· = "panic")
+      let fails := if d.dirty || sp = impl then [] else
+        if panicked then [s!"sig=C07.random-pick-panicked op={" ".intercalate (ws.take 4)} expected={sp} got={impl}"]
+        else [s!"{sigOf ws} expected={sp} got={impl}"]
       (d, { model := if d.chaos then impl else m, fails := fails })
 
 def main : IO UInt32 := runDriver ({} : DState) step
